@@ -53,7 +53,19 @@ type vfOp struct {
 	err     error
 }
 
+// vfAdmit is what the harness saw at the admission test of an upload (the
+// first read of the backlog counter inside Reserve).
+type vfAdmit struct {
+	size        int64
+	seen        bool
+	cur         int64
+	counter     int64
+	realBacklog int64
+}
+
 type vfEnv struct {
+	admit       map[string]*vfAdmit
+	everIndexed map[string]bool
 	t      *testing.T
 	sc     *vfScenario
 	dir    string
@@ -92,7 +104,18 @@ func vfErrCode(err error) string {
 func (e *vfEnv) put(th string, kind cache.EntryKind, hash string, data []byte) *vfOp {
 	op := &vfOp{Thread: th, Op: "put", Key: cache.LookupKey(kind, hash), Inv: e.tick(), content: data}
 	e.hist = append(e.hist, op)
+	if e.admit == nil {
+		e.admit = map[string]*vfAdmit{}
+	}
+	e.admit[th] = &vfAdmit{size: int64(len(data))}
 	err := e.cc.Put(context.Background(), kind, hash, int64(len(data)), bytes.NewReader(data))
+	if a := e.admit[th]; a != nil && a.seen && e.sc.hard > 0 {
+		refused := err != nil && vfErrCode(err) == "err507"
+		if !refused && a.cur+a.realBacklog+a.size > e.sc.hard {
+			e.violate("C17 admitted beyond the hard limit", "upload of %d bytes by %s was admitted although accounted %d + files evicted but still on disk %d + new item exceeds the limit %d (backlog counter said %d)", a.size, th, a.cur, a.realBacklog, e.sc.hard, a.counter)
+		}
+	}
+	delete(e.admit, th)
 	op.Ret = e.tick()
 	op.err = err
 	op.Res = vfErrCode(err)
@@ -195,6 +218,9 @@ type vfScenario struct {
 	hard     int64
 	useProxy bool
 	pressure bool // eviction by space pressure is possible
+	// commitRefusal: the reservations of other requests can make the index
+	// refuse a finished upload (internal error 500, documented behaviour)
+	commitRefusal bool
 	atomics  bool
 	// setup runs free-running before the scheduler takes over.
 	setup func(e *vfEnv)
@@ -258,7 +284,7 @@ func (e *vfEnv) legal(key string, data []byte) { e.values[key] = append(e.values
 // vfRunOne executes scenario sc under the schedule given by prefix.
 func vfRunOne(t *testing.T, sc *vfScenario, dir string, prefix []int) *vsched.Execution {
 	vfCleanHot(dir)
-	e := &vfEnv{t: t, sc: sc, dir: dir, values: map[string][][]byte{}}
+	e := &vfEnv{t: t, sc: sc, dir: dir, values: map[string][][]byte{}, everIndexed: map[string]bool{}}
 	opts := []Option{WithStorageMode(sc.mode), WithAccessLogger(vlib.SilentLogger())}
 	if sc.hard > 0 {
 		opts = append(opts, WithMaxSizeHardLimit(sc.hard))
@@ -282,6 +308,9 @@ func vfRunOne(t *testing.T, sc *vfScenario, dir string, prefix []int) *vsched.Ex
 	e.hist = nil
 	e.clock = 0
 	VfSeedTempfiles(777)
+	for _, en := range VfSnapshot(cc).Entries {
+		e.everIndexed[en.Path] = true
+	}
 
 	s := vsched.New(prefix)
 	s.AtomicPoints = sc.atomics
@@ -292,9 +321,34 @@ func vfRunOne(t *testing.T, sc *vfScenario, dir string, prefix []int) *vsched.Ex
 			return // inside a critical section (atomic point)
 		}
 		st := e.c.vfSnapshotLocked()
+		for _, en := range st.Entries {
+			e.everIndexed[en.Path] = true
+		}
 		e.pointChecks++
 		for _, p := range VfAccounting(st, -1) {
 			e.violate("C03@point "+vfGeneric(p), "at point %s:%s %s: %s", th, op, detail, p)
+		}
+	}
+	s.Resumed = func(th, op, detail string) {
+		// The first read of the backlog counter by an upload is its
+		// admission test: note what is really still on disk at the very
+		// instant it is performed.
+		a := e.admit[th]
+		if a == nil || a.seen || op != "atomic.load" {
+			return
+		}
+		a.seen = true
+		st := e.c.vfSnapshotLocked()
+		a.cur, a.counter = st.CurrentSize, st.QueuedBytes
+		indexed := map[string]bool{}
+		for _, en := range st.Entries {
+			indexed[en.Path] = true
+			e.everIndexed[en.Path] = true
+		}
+		for rel, sz := range VfListHot(e.dir) {
+			if !indexed[rel] && e.everIndexed[rel] {
+				a.realBacklog += sz
+			}
 		}
 	}
 	s.Install()
@@ -399,7 +453,7 @@ func (e *vfEnv) checkHistory() {
 		case "contains":
 			e.checkContains(op)
 		case "put":
-			if op.err != nil && op.Res != "err507" {
+			if op.err != nil && op.Res != "err507" && !(e.sc.commitRefusal && op.Res == "err500") {
 				e.violate("put-error "+op.Res, "well-formed upload %s by %s failed: %v", op.Key[:10], op.Thread, op.err)
 			}
 		}
@@ -610,6 +664,36 @@ func vfScenarios() []*vfScenario {
 					}
 				},
 				finals: []vfFinal{{cache.CAS, A.hash}, {cache.CAS, B.hash}, {cache.CAS, C.hash}, {cache.CAS, D.hash}}})
+		}
+
+		// a finished small upload is refused at commit because a large upload
+		// in flight holds a reservation close to max_size
+		{
+			big := vfMkBlob("big8000", 8000, false)
+			small := vlib.Bytes("small100", 100, false)
+			sk := strings.Repeat("1b", 32)
+			out = append(out, &vfScenario{name: "S11-commit-refused-by-reservation/" + mode, mode: mode, maxSize: 8192, pressure: true, commitRefusal: true,
+				threads: []func(*vfEnv, string){
+					func(e *vfEnv, th string) { e.put(th, cache.RAW, big.hash, big.data) },
+					func(e *vfEnv, th string) { e.put(th, cache.AC, sk, small) },
+					func(e *vfEnv, th string) { e.contains(th, cache.AC, sk, -1) },
+				},
+				finals: []vfFinal{{cache.RAW, big.hash}, {cache.AC, sk}}})
+		}
+		// two overwrites of one key against a reader (ENOENT slow path twice)
+		{
+			v3 := vlib.Bytes("ac-v3", 700, false)
+			out = append(out, &vfScenario{name: "S12-get-vs-two-overwrites/" + mode, mode: mode, maxSize: 1 << 20,
+				setup: func(e *vfEnv) {
+					e.put("SETUP", cache.AC, ack, v1)
+					e.legal("ac/"+ack, v1)
+				},
+				threads: []func(*vfEnv, string){
+					func(e *vfEnv, th string) { e.get(th, cache.AC, ack, -1, 0, false) },
+					func(e *vfEnv, th string) { e.put(th, cache.AC, ack, v2) },
+					func(e *vfEnv, th string) { e.put(th, cache.AC, ack, v3) },
+				},
+				finals: []vfFinal{{cache.AC, ack}}})
 		}
 
 		// C10: FindMissing over 25 digests (two internal batches) while two of
